@@ -298,15 +298,25 @@ def first_diff(got, want, optional=()):
 
 def recorded(label, entries):
     """input classes of the recorded known findings (known_findings.json); each has its own witness replay"""
-    if label in ("tar", "tar-gnu", "tar-ustar") and not entries:
+    if label in ("tar", "tar-gnu", "tar-ustar") and not entries and still_open("F27"):
         return "F27"
     return None
+
+
+def still_open(prefix):
+    """an exemption for the input class of a recorded finding holds only while the finding is listed as open in
+    known_findings.json (`findings`); once it is fixed in the library the class is checked like every other input"""
+    try:
+        k = json.load(open(os.path.join(os.path.dirname(os.path.dirname(os.path.abspath(__file__))), "known_findings.json")))
+        return any(f.get("property") == "C10" and str(f.get("id", "")).startswith(prefix) for f in k.get("findings", []))
+    except (OSError, ValueError, AttributeError):
+        return False
 
 
 def optional_results(label, entries, aname):
     """F25 (recorded): in a 7z archive the result of a ZERO-LENGTH member itself may be missing; every other member's
     result, the order, and the absence of errors are still required"""
-    if not label.startswith("7z"):
+    if not label.startswith("7z") or not still_open("F25"):
         return ()
     return {k for k, (_r, n) in enumerate(expected(entries, aname, with_origin=True)) if n == 0}
 
